@@ -40,7 +40,8 @@ Connector::~Connector()
 void Connector::start()
 {
   connect_ = true;
-  loop_->runInLoop(std::bind(&Connector::startCycleInLoop, this)); // FIXME: unsafe
+  // the functor shares ownership: the client may be destroyed before it runs
+  loop_->runInLoop(std::bind(&Connector::startCycleInLoop, shared_from_this()));
 }
 
 void Connector::startCycleInLoop()
@@ -75,7 +76,7 @@ void Connector::startInLoop()
 void Connector::stop()
 {
   connect_ = false;
-  loop_->queueInLoop(std::bind(&Connector::stopInLoop, this)); // FIXME: unsafe
+  loop_->queueInLoop(std::bind(&Connector::stopInLoop, shared_from_this()));
   // FIXME: cancel timer
 }
 
@@ -168,7 +169,7 @@ int Connector::removeAndResetChannel()
   channel_->remove();
   int sockfd = channel_->fd();
   // Can't reset channel_ here, because we are inside Channel::handleEvent
-  loop_->queueInLoop(std::bind(&Connector::resetChannel, this)); // FIXME: unsafe
+  loop_->queueInLoop(std::bind(&Connector::resetChannel, shared_from_this()));
   return sockfd;
 }
 
